@@ -114,8 +114,12 @@ ENVS = [
     ({'OF_SAFE_METRICS_FILE': 'yaml:openlineage: {url: x}\n', 'OF_SAFE_METRICS': 'zzz'}, None),
     ({'OF_SAFE_METRICS': '*_fps, cpu_?, lane_[0-9]'}, {'*_fps', 'cpu_?', 'lane_[0-9]'}),
     ({'OF_SAFE_METRICS': 'a*b, ?'}, {'a*b', '?'}),
+    ({'OF_SAFE_METRICS': '*_histogram'}, {'*_histogram'}),          # entries written in the exported spelling of histograms match NAMES of that spelling only
+    ({'OF_SAFE_METRICS': 'lat_histogram, secret_*_histogram'}, {'lat_histogram', 'secret_*_histogram'}),
+    ({'OF_SAFE_METRICS_FILE': 'yaml:safe_metrics: ["*_count", lat_sum]\n'}, {'*_count', 'lat_sum'}),
 ]
-METRIC_NAMES = ['frames_processed', 'fps', 'secret_metric', 'a', 'bb', 'frames_', 'camera_fps', 'camera_fps_by_operator', 'cpu_1', 'cpu_12', 'lane_7', 'lane_77', 'axb', 'axbc', 'xaxb']
+METRIC_NAMES = ['frames_processed', 'fps', 'secret_metric', 'a', 'bb', 'frames_', 'camera_fps', 'camera_fps_by_operator', 'cpu_1', 'cpu_12', 'lane_7', 'lane_77', 'axb', 'axbc', 'xaxb',
+                'lat', 'lat_histogram', 'secret_metric_histogram', 'lat_sum', 'lat_count', 'LAT_SUM']
 
 
 def config_scenario(e):
@@ -140,10 +144,17 @@ def config_scenario(e):
     B.fnmatch = real_fnmatch
     cap = Capture(); exp = B.OTelLineageExporter(cap, allowlist=allow); exp._export_raw_data = False
     name = METRIC_NAMES[e.choice('metric', len(METRIC_NAMES))]
+    kind = ['counter', 'gauge', 'histogram'][e.choice('kind', 3)]
+    data = (types.SimpleNamespace(is_monotonic=True, data_points=[types.SimpleNamespace(value=1)]) if kind == 'counter' else
+            types.SimpleNamespace(is_monotonic=False, data_points=[types.SimpleNamespace(value=1.5)]) if kind == 'gauge' else
+            types.SimpleNamespace(data_points=[types.SimpleNamespace(bucket_counts=[1, 0], explicit_bounds=[1.0], count=1, sum=0.5)]))
     md = types.SimpleNamespace(resource_metrics=[types.SimpleNamespace(scope_metrics=[types.SimpleNamespace(scope=types.SimpleNamespace(name='s'),
-         metrics=[types.SimpleNamespace(name=name, data=types.SimpleNamespace(is_monotonic=True, data_points=[types.SimpleNamespace(value=1)]))])])])
+         metrics=[types.SimpleNamespace(name=name, data=data)])])])
     exp.export(md)
-    exported = any(name in (c or {}) for c in cap.calls)
+    key = name + '_histogram' if kind == 'histogram' else name
+    exported = any(key in (c or {}) for c in cap.calls)
+    other = [k for c in cap.calls for k in (c or {}) if k != key]
+    if other: e.fail('extra-keys', f'allow-list {sorted(allow)}: exporting {kind} {name!r} produced keys {other}', {'kind': 'extra-keys'})
     should = any(name == p or real_fnmatch.fnmatch(name, p) for p in allow)
     if exported != should:
         e.fail('lockdown-leak' if not allow else 'not-allowlisted' if exported else 'dropped',
@@ -161,7 +172,7 @@ def harnesses(tier):
                 bounds={'allow-list': 'None, or set-like with 0-3 patterns; exact membership and match matrix symbolic', 'data points': '1-2' if q else '1-3',
                         'kinds': 'counter gauge up-down histogram', 'histogram lengths': 'counts 0-4 x bounds 0-4'},
                 functions=fn, stubs=stubs, assumptions=assume, budget_s=600),
-        Harness('c16.config', config_scenario, bounds={'environments': len(ENVS), 'metric names': len(METRIC_NAMES)}, functions=fn, stubs=['capturing lineage object'],
+        Harness('c16.config', config_scenario, bounds={'environments': len(ENVS), 'metric names': len(METRIC_NAMES), 'kinds': 'counter gauge histogram'}, functions=fn, stubs=['capturing lineage object'],
                 assumptions=assume, budget_s=120),
     ]
 
